@@ -1820,6 +1820,9 @@ def scale_family(binaries, rng, quick):
                 continue
             if bname == "debug":
                 row["run_debug"] += 1
+            if bname == "debug" and rr[0] != "ok" and "timeout" in (rr[0] + rr[2]).lower():
+                row["debug_timeouts"] = row.get("debug_timeouts", 0) + 1      # machine load, not the compiler: the release run decides
+                continue
             if not (rr[0] == "ok" and rr[1] == exp):
                 row["status"] = "WRONG-BEHAVIOUR(%s)" % bname
                 failures.append(("scale-family program %s (output known in closed form) misbehaves in the %s build" % (label, bname),
